@@ -77,6 +77,26 @@ def catalog():
     s.array("fixed", Op("+", Op("*", "n", 2), 1), 4, ("Int", "BE"), 2)
     ps.append(p)
 
+    # P5b: bits nested in bits and arrays inside bits, both at non-zero bit offsets (sub-blocks of an offset bit block)
+    p = Program("Nested")
+    b = p.bits("In8")
+    b.scalar("x", 0, 3)
+    b.scalar("y", 3, 5, st="Int")
+    o = p.bits("Out32")
+    o.scalar("a", 0, 5)
+    o.sub("inner", 8, 8, "In8")
+    o.array("nib", 16, 12, ("UInt",), 4)
+    o.scalar("top", 28, 4, st="Bcd")
+    q = p.bits("Out16")
+    q.sub("deep", 3, 8, "In8")
+    q.scalar("fl", 15, 1, st="Flag")
+    s = p.struct("Hold")
+    s.scalar("pre", 0, 1)
+    s.sub("w", 1, 4, "Out32", order="BE")
+    s.sub("h", 5, 2, "Out16")
+    s.virt("vy", Op("+", R("w", "inner", "y"), R("h", "deep", "x")))
+    ps.append(p)
+
     # P6: simple transforms (y+c, c+y, y-c, c-y), [requires] on stored and on virtual fields, wide-ish bit fields
     p = Program("Xform")
     s = p.struct("Xf")
@@ -108,7 +128,7 @@ def catalog():
     s.scalar("a", 5, 2, cond=Op("==", "n", 3), order="BE")
     s.virt("twice", Op("*", "n", 2))
     s.alias("al", "kind")
-    s.anon_bits(7, 1, lambda b: (b.scalar("lo", 0, 3), b.scalar("hi", 3, 4, st="Int"), b.scalar("fl", 7, 1, st="Flag")))
+    s.anon_bits(7, 1, lambda b: (b.scalar("lo", 0, 3, text_output="Skip"), b.scalar("hi", 3, 4, st="Int"), b.scalar("fl", 7, 1, st="Flag", text_output="Emit")))
     s.array("arr", 8, 2, ("UInt",), 1)
     s.sub("inn", 10, 2, "TIn")
     s.scalar("sk", 12, 1, text_output="Skip")
